@@ -1,1 +1,119 @@
-(* Model/CFun.v -- stub, to be filled in *)
+(* Model/CFun.v -- Complex<f64> elementary / trigonometric / hyperbolic functions over R x R
+   (src/complex/elementary.rs, trigonometric.rs, hyperbolic.rs, constant.rs; abs/arg/abs_sqr/conj of
+   src/complex/mod.rs), formula by formula as the source composes them.  Definitions only.
+
+   Conventions of this model (DESIGN 4.2 / 7-C14):
+   * a complex number is a pair (re, im) of real numbers; the operators are the formulas of
+     src/complex/mod.rs (mul: (ac - bd, ad + bc); div: ((ac + bd)/den, (bc - ad)/den), den = cc + dd);
+   * libm calls are the real functions of the standard library: f64::sqrt -> sqrt, exp -> exp, ln -> ln,
+     sin/cos -> sin/cos, sinh/cosh -> sinh/cosh, powf -> Rpower, atan2 -> the piecewise-atan function
+     [atan2] below (the value of IEEE atan2 for a zero of positive sign: atan2 (+0) x = PI for x < 0);
+   * the f64 literals 0.5, 1.0 and PI_2 (constant.rs) are the real numbers 1/2, 1, PI/2 (the literal of
+     PI_2 is compared with PI/2 by an Interval certificate on every check);
+   * division is the total real division: the theorems carry the hypotheses that keep denominators
+     non-zero, the certificates are only evaluated on the non-overflowing domain of the property. *)
+From Coq Require Import Reals.
+Local Open Scope R_scope.
+
+Definition C : Type := (R * R)%type.
+Definition re (z : C) : R := fst z.
+Definition im (z : C) : R := snd z.
+
+(* ---- src/complex/mod.rs: the operators used by the function files ---- *)
+Definition czero : C := (0, 0).
+Definition cone : C := (1, 0).
+Definition ci : C := (0, 1).                                           (* constant.rs: I = Cmplx::new(0.0, 1.0) *)
+Definition cconj (z : C) : C := (re z, - im z).
+Definition cneg (z : C) : C := (- re z, - im z).
+Definition cadd (z w : C) : C := (re z + re w, im z + im w).
+Definition csub (z w : C) : C := (re z - re w, im z - im w).
+Definition cmul (z w : C) : C := (re z * re w - im z * im w, re z * im w + im z * re w).
+Definition cdiv (z w : C) : C :=
+  let den := re w * re w + im w * im w in
+  ((re z * re w + im z * im w) / den, (im z * re w - re z * im w) / den).
+Definition cadd_r (z : C) (r : R) : C := (re z + r, im z).             (* Complex + f64 *)
+Definition csub_r (z : C) (r : R) : C := (re z - r, im z).             (* Complex - f64 *)
+Definition cmul_r (z : C) (r : R) : C := (re z * r, im z * r).         (* Complex * f64 *)
+
+Definition abs_sqr (z : C) : R := re z * re z + im z * im z.
+Definition cabs (z : C) : R := sqrt (abs_sqr z).
+
+(* f64::atan2 (y, x), principal value in (-PI, PI], zero of positive sign *)
+Definition atan2 (y x : R) : R :=
+  if Rlt_dec 0 x then atan (y / x)
+  else if Rlt_dec x 0 then (if Rle_dec 0 y then atan (y / x) + PI else atan (y / x) - PI)
+  else if Rlt_dec 0 y then PI / 2
+  else if Rlt_dec y 0 then - (PI / 2)
+  else 0.
+Definition arg (z : C) : R := atan2 (im z) (re z).
+
+(* ---- src/complex/elementary.rs ---- *)
+Definition csqrt (z : C) : C :=
+  let sqrt_abs := sqrt (cabs z) in
+  let theta := arg z in
+  (sqrt_abs * cos (1 / 2 * theta), sqrt_abs * sin (1 / 2 * theta)).
+
+Definition cpow (z w : C) : C :=
+  let r2 := abs_sqr z in
+  let theta := arg z in
+  let x := Rpower r2 (1 / 2 * re w) * exp (- im w * theta) in
+  let y := re w * theta + 1 / 2 * im w * ln r2 in
+  (x * cos y, x * sin y).
+
+Definition cpowf (z : C) (x : R) : C :=
+  let r2 := abs_sqr z in
+  let theta := arg z in
+  let a := Rpower r2 (1 / 2 * x) in
+  let b := x * theta in
+  (a * cos b, a * sin b).
+
+Definition cexp (z : C) : C :=
+  let a := exp (re z) in (a * cos (im z), a * sin (im z)).
+
+Definition cln (z : C) : C := (ln (cabs z), arg z).
+
+Definition clog (z b : C) : C := cdiv (cln z) (cln b).
+
+Definition cpolar (r theta : R) : C := (r * cos theta, r * sin theta).
+
+(* ---- src/complex/trigonometric.rs ---- *)
+Definition csin (z : C) : C := (sin (re z) * cosh (im z), cos (re z) * sinh (im z)).
+Definition ccos (z : C) : C := (cos (re z) * cosh (im z), - sin (re z) * sinh (im z)).
+Definition ctan (z : C) : C := cdiv (csin z) (ccos z).
+Definition csec (z : C) : C := cdiv cone (ccos z).
+Definition ccsc (z : C) : C := cdiv cone (csin z).
+Definition ccot (z : C) : C := cdiv cone (ctan z).
+
+(* - I * ((1 - z*z).sqrt() + I*z).ln() *)
+Definition casin (z : C) : C :=
+  let squared := cmul z z in
+  cmul (cneg ci) (cln (cadd (csqrt (csub cone squared)) (cmul ci z))).
+(* I * ((1 - z*z).sqrt() + I*z).ln() + PI_2 *)
+Definition cacos (z : C) : C :=
+  let squared := cmul z z in
+  cadd_r (cmul ci (cln (cadd (csqrt (csub cone squared)) (cmul ci z)))) (PI / 2).
+(* ((1 - iz).ln() - (1 + iz).ln()) * I * 0.5 *)
+Definition catan (z : C) : C :=
+  let iz := cmul ci z in
+  cmul_r (cmul (csub (cln (csub cone iz)) (cln (cadd cone iz))) ci) (1 / 2).
+Definition casec (z : C) : C := cacos (cdiv cone z).
+Definition cacsc (z : C) : C := casin (cdiv cone z).
+Definition cacot (z : C) : C := catan (cdiv cone z).
+
+(* ---- src/complex/hyperbolic.rs ---- *)
+Definition csinh (z : C) : C := (sinh (re z) * cos (im z), cosh (re z) * sin (im z)).
+Definition ccosh (z : C) : C := (cosh (re z) * cos (im z), sinh (re z) * sin (im z)).
+Definition ctanh (z : C) : C := cdiv (csinh z) (ccosh z).
+Definition csech (z : C) : C := cdiv cone (ccosh z).
+Definition ccsch (z : C) : C := cdiv cone (csinh z).
+Definition ccoth (z : C) : C := cdiv cone (ctanh z).
+
+(* ((z*z + 1).sqrt() + z).ln() *)
+Definition casinh (z : C) : C := cln (cadd (csqrt (cadd_r (cmul z z) 1)) z).
+(* ((z - 1).sqrt() * (z + 1).sqrt() + z).ln() *)
+Definition cacosh (z : C) : C := cln (cadd (cmul (csqrt (csub_r z 1)) (csqrt (cadd_r z 1))) z).
+(* ((z + 1).ln() - (1 - z).ln()) * 0.5 *)
+Definition catanh (z : C) : C := cmul_r (csub (cln (cadd_r z 1)) (cln (csub cone z))) (1 / 2).
+Definition casech (z : C) : C := cacosh (cdiv cone z).
+Definition cacsch (z : C) : C := casinh (cdiv cone z).
+Definition cacoth (z : C) : C := catanh (cdiv cone z).
